@@ -1391,6 +1391,157 @@ fn leafless_mode(out: &mut Out, rng: &mut Rng, thorough: bool) {
 	st.dump(out, "leafless");
 }
 
+// ---------------------------------------------------------------------------------------------
+// ancestor: a pruned-subtree hash must not cover an unspent leaf
+// ---------------------------------------------------------------------------------------------
+
+/// A fully spent segment may be served as just the hash of its first unpruned parent: an ancestor
+/// above the segment root, possibly a peak.  Adversarial segments of that shape (genuine ancestor
+/// hash, genuine proof from there on) against bitmaps that mark exactly ONE leaf under the ancestor
+/// unspent, in every position: `validate` / `validate_with` must refuse every one of them; with no
+/// leaf under the ancestor marked they must accept.
+fn ancestor_mode(out: &mut Out, rng: &mut Rng, thorough: bool) {
+	let maxn: u64 = if thorough { 96 } else { 64 };
+	let mut st = Stats::default();
+	let mut ba = VecBackend::<Elem>::new();
+	let mut size = 0u64;
+	for n in 1..=maxn {
+		let e = Elem(rng.bytes(8));
+		let mut pm = PMMR::at(&mut ba, size);
+		pm.push(&e).unwrap();
+		size = pm.size;
+		let root = pm.root().unwrap();
+		let mmr = ReadonlyPMMR::<Elem, _>::at(&ba, size);
+		let n_leaves = pmmr::n_leaves(size);
+		let emit_state = n <= 10 || rng.chance(1, 5);
+		if emit_state {
+			out.raw("seg new");
+		}
+		for height in 0..=3u8 {
+			let cap = 1u64 << height;
+			for idx in 0..(n_leaves / cap) {
+				// full segments only: a partial last segment has no single root
+				let id = SegmentIdentifier { height, idx };
+				let (first, last) = id.segment_pos_range(size);
+				let honest = match Segment::<Elem>::from_pmmr(id, &mmr, false) {
+					Ok(s) => parts_of(&s),
+					Err(_) => continue,
+				};
+				let fb = pmmr::family_branch(last, size);
+				let seg_lo = pmmr::n_leaves(first + 1) - 1;
+				let seg_hi = seg_lo + cap;
+				// ancestors: 1, 2, 3 levels up and the peak
+				let mut levels: Vec<usize> = vec![0, 1, 2];
+				if !fb.is_empty() {
+					levels.push(fb.len() - 1);
+				}
+				levels.retain(|j| *j < fb.len());
+				levels.sort();
+				levels.dedup();
+				for j in levels {
+					let (a, _) = fb[j];
+					let is_peak = j + 1 == fb.len();
+					let a_lo = pmmr::n_leaves(1 + pmmr::bintree_leftmost(a)) - 1;
+					let a_hi = pmmr::n_leaves(1 + pmmr::bintree_rightmost(a)).min(n_leaves);
+					let p = Parts {
+						height,
+						idx,
+						hash_pos: vec![a],
+						hashes: vec![mmr.get_from_file(a).unwrap()],
+						leaf_pos: vec![],
+						leaf_data: vec![],
+						proof: honest.proof[(j + 1).min(honest.proof.len())..].to_vec(),
+					};
+					let seg = match build::<Elem>(&p) {
+						Some(s) => s,
+						None => continue,
+					};
+					st.inc(&format!("ancestor-level:{}{}", j + 1, if is_peak { "(peak)" } else { "" }));
+					st.inc(&format!("height:{}", height));
+					// the leaves outside the ancestor are marked at random
+					let mut base = Bitmap::new();
+					for i in 0..n_leaves {
+						if (i < a_lo || i >= a_hi) && rng.chance(1, 2) {
+							base.add(i as u32);
+						}
+					}
+					let other = Hash::from_vec(&rng.bytes(32));
+					let left = rng.chance(1, 2);
+					let hlp = if rng.chance(1, 2) { size } else { rng.below(1000) };
+					let merged = if left { (other, root).hash_with_index(hlp) } else { (root, other).hash_with_index(hlp) };
+					let plain = Target { size, root, with: None };
+					let with = Target { size, root: merged, with: Some((hlp, other, left)) };
+					// (what, marked leaf)
+					let mut marks: Vec<(&'static str, Option<u64>)> = vec![("none-marked", None), ("leftmost", Some(a_lo)), ("rightmost", Some(a_hi - 1))];
+					marks.push(("inside-own-range", Some(seg_lo + rng.below(cap))));
+					let outside: Vec<u64> = (a_lo..a_hi).filter(|i| *i < seg_lo || *i >= seg_hi).collect();
+					if !outside.is_empty() {
+						marks.push(("sibling-subtree", Some(*rng.pick(&outside))));
+						marks.push(("sibling-subtree", Some(*rng.pick(&outside))));
+					}
+					// the leaf next to the segment on either side (still under the ancestor)
+					if seg_hi < a_hi {
+						marks.push(("right-neighbour", Some(seg_hi)));
+					}
+					if seg_lo > a_lo {
+						marks.push(("left-neighbour", Some(seg_lo - 1)));
+					}
+					for (what, m) in marks {
+						let mut bm = base.clone();
+						if let Some(i) = m {
+							bm.add(i as u32);
+						}
+						st.inc(&format!("marked:{}", what));
+						let v = run_validate(&seg, &plain, Some(&bm));
+						let vw = run_validate(&seg, &with, Some(&bm));
+						let emit = emit_state && (n <= 8 || rng.chance(1, 3));
+						if emit {
+							out.line(&validate_lhs(&p, &plain, Some(&bm)), &v);
+							out.line(&validate_lhs(&p, &with, Some(&bm)), &vw);
+							let f = catch(AssertUnwindSafe(|| seg.first_unpruned_parent(size, Some(&bm))));
+							out.line(&format!("seg fup {} {} {}", size, bm_str(Some(&bm)), parts_str(&p)), &fup_str(&f));
+						}
+						let cls = |s: &str| -> String {
+							if s.starts_with("err:") { s.split(':').take(2).collect::<Vec<_>>().join(":") } else { s.to_string() }
+						};
+						st.inc(&format!("verdict[{}]:{}", if m.is_some() { "one-leaf-marked" } else { "none-marked" }, cls(&vw)));
+						let input = format!(
+							"mmr_size={} ({} leaves) segment=({},{}) positions {}..={} ancestor_pos0={} (level {}{}, leaves {}..{}) marked_leaf={:?} ({}) :: {}",
+							size, n_leaves, height, idx, first, last, a, j + 1, if is_peak { ", peak" } else { "" }, a_lo, a_hi, m, what,
+							validate_lhs(&p, &with, Some(&bm))
+						);
+						if v == "panic" || vw == "panic" {
+							out.raw(&format!("#ORACLE-FAIL C16 ancestor: validate panicked: {}", input));
+						}
+						match m {
+							Some(_) => {
+								if v == "ok" || vw == "ok" {
+									out.raw(&format!(
+										"#ORACLE-FAIL C16 ancestor: a pruned-subtree hash covering a leaf the bitmap marks unspent was accepted (validate={} validate_with={}): {}",
+										v, vw, input
+									));
+								}
+							}
+							None => {
+								// the last position of the MMR, when it is a leaf of the range, is required whatever the bitmap says
+								let last_rule = last >= size - 1 && pmmr::is_leaf(size - 1);
+								if !last_rule && (v != "ok" || vw != "ok") {
+									out.raw(&format!(
+										"#ORACLE-FAIL C16 ancestor: genuine hash of a completely spent ancestor not accepted (validate={} validate_with={}): {}",
+										v, vw, input
+									));
+								}
+							}
+						}
+					}
+				}
+			}
+		}
+	}
+	st.add("max_leaves", maxn);
+	st.dump(out, "ancestor");
+}
+
 /// (ii) `BitmapSegment` <-> `Segment<BitmapChunk>` and validation against the accumulator root
 fn bitmap_mode(out: &mut Out, rng: &mut Rng, thorough: bool) {
 	let mut st = Stats::default();
@@ -1672,6 +1823,99 @@ fn tamper<T: Clone>(seg: &Segment<T>, rng: &mut Rng, required: &dyn Fn(u64) -> b
 	catch(AssertUnwindSafe(move || Segment::from_parts(id, hp, hs, lp, ld, proof))).ok().map(|s| (s, req))
 }
 
+/// the trunk of a source chain: `n_trunk` real blocks with transactions of the given style
+/// ("small": 0-2 small transactions per block; "big": one 1-3-input 9-output transaction per
+/// block; `exact`: the output count at the archive header is steered to exactly that number)
+fn build_trunk(kit: &mut Kit, rng: &mut Rng, st: &mut Stats, n_trunk: u64, style: &str, exact: Option<u64>) -> Vec<usize> {
+	let mut tip = 0usize;
+	let mut trunk = vec![0usize];
+	let mut spendable: Vec<(usize, u64)> = vec![(0, 0)];
+	// the archive header of a chain of n_trunk blocks
+	let planned_archive = {
+		let t = n_trunk.saturating_sub(20);
+		t - t % 10
+	};
+	for h in 1..=n_trunk {
+		let mut specs = vec![];
+		if h >= 4 && style == "small" {
+			for _ in 0..rng.range(0, 2) {
+				let cands: Vec<usize> = spendable
+					.iter()
+					.enumerate()
+					.filter(|(_, (o, c))| (!kit.outs[*o].coinbase || h >= *c + 3) && kit.outs[*o].value > 5000)
+					.map(|(i, _)| i)
+					.collect();
+				if cands.is_empty() {
+					break;
+				}
+				let pick = *rng.pick(&cands);
+				let (o, _) = spendable.remove(pick);
+				let v = kit.outs[o].value;
+				if rng.chance(1, 3) {
+					specs.push(TxSpec { inputs: vec![o], outputs: vec![(v - 100, None)], kernel: KSpec::Plain(100) });
+				} else {
+					let a = rng.range(1, v / 2);
+					specs.push(TxSpec { inputs: vec![o], outputs: vec![(a, None), (v - a - 200, None)], kernel: KSpec::Plain(200) });
+				}
+			}
+		}
+		if h >= 4 && style == "big" {
+			// outputs so far (all ever created = leaves of the output MMR)
+			let current = kit.outs.len() as u64;
+			let n_out = match exact {
+				Some(target) if h <= planned_archive => {
+					// this block adds 1 coinbase + n_out; every later block up to the archive
+					// header adds at least its coinbase
+					let later = planned_archive - h;
+					let room = target.saturating_sub(current + 1 + later);
+					room.min(9)
+				}
+				_ => 9,
+			};
+			let n_in = rng.range(1, 3) as usize;
+			let mut ins = vec![];
+			let mut total = 0u64;
+			for k in 0..n_in {
+				if n_out == 0 {
+					break;
+				}
+				let cands: Vec<usize> = spendable
+					.iter()
+					.enumerate()
+					.filter(|(_, (o, c))| (!kit.outs[*o].coinbase || h >= *c + 3) && kit.outs[*o].value > 5000)
+					.map(|(i, _)| i)
+					.collect();
+				if cands.is_empty() {
+					break;
+				}
+				let pick = if k > 0 && rng.chance(1, 2) { cands[0] } else { *rng.pick(&cands) };
+				let (o, _) = spendable.remove(pick);
+				total += kit.outs[o].value;
+				ins.push(o);
+			}
+			if !ins.is_empty() {
+				let fee = 300u64;
+				let each = (total - fee) / n_out;
+				let mut outs: Vec<(u64, Option<usize>)> = (0..n_out - 1).map(|_| (each, None)).collect();
+				outs.push((total - fee - each * (n_out - 1), None));
+				specs.push(TxSpec { inputs: ins, outputs: outs, kernel: KSpec::Plain(fee) });
+			}
+		}
+		let before = kit.outs.len();
+		match kit.new_block(tip, 2, &specs) {
+			Ok(id) => {
+				tip = id;
+				trunk.push(id);
+				for o in before..kit.outs.len() {
+					spendable.push((o, h));
+				}
+			}
+			Err(e) => st.inc(&format!("generator:{}", e)),
+		}
+	}
+	trunk
+}
+
 /// (iii) end to end: source chain -> segmenter -> desegmenter of a fresh chain
 fn e2e_mode(out: &mut Out, rng: &mut Rng, thorough: bool) {
 	let work = std::env::var("VERIF_WORK").expect("VERIF_WORK not set");
@@ -1695,92 +1939,7 @@ fn e2e_mode(out: &mut Out, rng: &mut Rng, thorough: bool) {
 	}
 	for (name, n_trunk, compact, style, exact) in scenarios {
 		let mut kit = Kit::new(&format!("{}/e2e_src_{}", work, name));
-		let mut tip = 0usize;
-		let mut trunk = vec![0usize];
-		let mut spendable: Vec<(usize, u64)> = vec![(0, 0)];
-		// the archive header of a chain of n_trunk blocks
-		let planned_archive = {
-			let t = n_trunk.saturating_sub(20);
-			t - t % 10
-		};
-		for h in 1..=n_trunk {
-			let mut specs = vec![];
-			if h >= 4 && style == "small" {
-				for _ in 0..rng.range(0, 2) {
-					let cands: Vec<usize> = spendable
-						.iter()
-						.enumerate()
-						.filter(|(_, (o, c))| (!kit.outs[*o].coinbase || h >= *c + 3) && kit.outs[*o].value > 5000)
-						.map(|(i, _)| i)
-						.collect();
-					if cands.is_empty() {
-						break;
-					}
-					let pick = *rng.pick(&cands);
-					let (o, _) = spendable.remove(pick);
-					let v = kit.outs[o].value;
-					if rng.chance(1, 3) {
-						specs.push(TxSpec { inputs: vec![o], outputs: vec![(v - 100, None)], kernel: KSpec::Plain(100) });
-					} else {
-						let a = rng.range(1, v / 2);
-						specs.push(TxSpec { inputs: vec![o], outputs: vec![(a, None), (v - a - 200, None)], kernel: KSpec::Plain(200) });
-					}
-				}
-			}
-			if h >= 4 && style == "big" {
-				// outputs so far (all ever created = leaves of the output MMR)
-				let current = kit.outs.len() as u64;
-				let n_out = match exact {
-					Some(target) if h <= planned_archive => {
-						// this block adds 1 coinbase + n_out; every later block up to the archive
-						// header adds at least its coinbase
-						let later = planned_archive - h;
-						let room = target.saturating_sub(current + 1 + later);
-						room.min(9)
-					}
-					_ => 9,
-				};
-				let n_in = rng.range(1, 3) as usize;
-				let mut ins = vec![];
-				let mut total = 0u64;
-				for k in 0..n_in {
-					if n_out == 0 {
-						break;
-					}
-					let cands: Vec<usize> = spendable
-						.iter()
-						.enumerate()
-						.filter(|(_, (o, c))| (!kit.outs[*o].coinbase || h >= *c + 3) && kit.outs[*o].value > 5000)
-						.map(|(i, _)| i)
-						.collect();
-					if cands.is_empty() {
-						break;
-					}
-					let pick = if k > 0 && rng.chance(1, 2) { cands[0] } else { *rng.pick(&cands) };
-					let (o, _) = spendable.remove(pick);
-					total += kit.outs[o].value;
-					ins.push(o);
-				}
-				if !ins.is_empty() {
-					let fee = 300u64;
-					let each = (total - fee) / n_out;
-					let mut outs: Vec<(u64, Option<usize>)> = (0..n_out - 1).map(|_| (each, None)).collect();
-					outs.push((total - fee - each * (n_out - 1), None));
-					specs.push(TxSpec { inputs: ins, outputs: outs, kernel: KSpec::Plain(fee) });
-				}
-			}
-			let before = kit.outs.len();
-			match kit.new_block(tip, 2, &specs) {
-				Ok(id) => {
-					tip = id;
-					trunk.push(id);
-					for o in before..kit.outs.len() {
-						spendable.push((o, h));
-					}
-				}
-				Err(e) => st.inc(&format!("generator:{}", e)),
-			}
-		}
+		let trunk = build_trunk(&mut kit, rng, &mut st, n_trunk, style, exact);
 		let src = kit.builder();
 		if compact {
 			let tail_before = src.tail().map(|t| t.height).unwrap_or(0);
@@ -2073,6 +2232,601 @@ fn e2e_mode(out: &mut Out, rng: &mut Rng, thorough: bool) {
 	st.dump(out, "e2e");
 }
 
+// ---------------------------------------------------------------------------------------------
+// assembly: multi-segment state sync with lowered segment heights (hook 19692181f)
+// ---------------------------------------------------------------------------------------------
+
+use grin_core::core::pmmr::segment::SegmentType;
+
+fn tree_no(t: &SegmentType) -> u8 {
+	match t {
+		SegmentType::Bitmap => 0,
+		SegmentType::Output => 1,
+		SegmentType::RangeProof => 2,
+		SegmentType::Kernel => 3,
+	}
+}
+
+const TREE: [&str; 4] = ["bitmap", "output", "rangeproof", "kernel"];
+
+#[derive(Clone, Copy, PartialEq, Debug)]
+enum Pattern {
+	InOrder,
+	Shuffled,
+	Reverse,
+	/// every segment delivered twice while the first copy is still cached
+	DupCached,
+	/// segments that have ALREADY BEEN APPLIED are delivered again (idx 0, a middle one, the last applied)
+	LateDup,
+	/// the next required segment of every tree arrives two rounds late, the later ones on time
+	Withhold,
+	/// tampered copies before and after the honest one
+	Tampered,
+	/// valid segments nobody asked for that cannot be mistaken for a required one: the asked height
+	/// far ahead of the request window, higher heights whose idx lies behind the next required one
+	UnsolicitedBenign,
+	/// valid segments of ANOTHER height whose idx may equal a required idx (lower heights with any
+	/// idx, higher heights at or ahead of the next required idx)
+	UnsolicitedForeign,
+}
+
+const PATTERNS: [Pattern; 9] = [
+	Pattern::InOrder,
+	Pattern::Shuffled,
+	Pattern::Reverse,
+	Pattern::DupCached,
+	Pattern::LateDup,
+	Pattern::Withhold,
+	Pattern::Tampered,
+	Pattern::UnsolicitedBenign,
+	Pattern::UnsolicitedForeign,
+];
+
+struct Reference {
+	obs: Vec<usize>,
+	roots: String,
+	valid: bool,
+	unspent_idx: BTreeSet<u64>,
+}
+
+/// one delivery to the desegmenter; `tamper`: deliver a corrupted copy. Returns (accepted, was tampered, redundant-only)
+fn deliver(
+	d: &mut grin_chain::txhashset::Desegmenter,
+	segmenter: &grin_chain::txhashset::Segmenter,
+	t: u8,
+	id: SegmentIdentifier,
+	tamper_it: bool,
+	rng: &mut Rng,
+	req_out: &dyn Fn(u64) -> bool,
+) -> Option<(bool, bool, bool, String)> {
+	let req_all = |_p: u64| true;
+	let mut redundant_only = false;
+	let (res, tampered): (Result<(), grin_chain::Error>, bool) = match t {
+		0 => match segmenter.bitmap_segment(id) {
+			Ok((seg, root)) => {
+				if tamper_it {
+					(d.add_bitmap_segment(seg, Hash::from_vec(&rng.bytes(32))), true)
+				} else {
+					(d.add_bitmap_segment(seg, root), false)
+				}
+			}
+			Err(_) => return None,
+		},
+		1 => match segmenter.output_segment(id) {
+			Ok((seg, root)) => match (tamper_it, tamper::<OutputIdentifier>(&seg, rng, req_out)) {
+				(true, Some((s2, req))) => {
+					redundant_only = !req;
+					(d.add_output_segment(s2, Some(root)), true)
+				}
+				_ => (d.add_output_segment(seg, Some(root)), false),
+			},
+			Err(_) => return None,
+		},
+		2 => match segmenter.rangeproof_segment(id) {
+			Ok(seg) => match (tamper_it, tamper::<RangeProof>(&seg, rng, req_out)) {
+				(true, Some((s2, req))) => {
+					redundant_only = !req;
+					(d.add_rangeproof_segment(s2), true)
+				}
+				_ => (d.add_rangeproof_segment(seg), false),
+			},
+			Err(_) => return None,
+		},
+		_ => match segmenter.kernel_segment(id) {
+			Ok(seg) => match (tamper_it, tamper::<TxKernel>(&seg, rng, &req_all)) {
+				(true, Some((s2, _))) => (d.add_kernel_segment(s2), true),
+				_ => (d.add_kernel_segment(seg), false),
+			},
+			Err(_) => return None,
+		},
+	};
+	let cls = match &res {
+		Ok(()) => String::new(),
+		Err(e) => error_class(e),
+	};
+	Some((res.is_ok(), tampered, redundant_only, cls))
+}
+
+fn assembly_mode(out: &mut Out, rng: &mut Rng, thorough: bool) {
+	use grin_chain::pibd_params::verif_hooks::set_segment_heights;
+	let work = std::env::var("VERIF_WORK").expect("VERIF_WORK not set");
+	let mut st = Stats::default();
+	let scenarios: Vec<(&str, u64, bool, &str)> = if thorough {
+		vec![("small-uncompacted", 46, false, "small"), ("small-compacted", 90, true, "small"), ("big-compacted", 140, true, "big")]
+	} else {
+		vec![("small-compacted", 90, true, "small")]
+	};
+	// (bitmap, output, rangeproof, kernel) heights; None = the shipped defaults (9, 11, 11, 11)
+	let height_sets: Vec<Option<(u8, u8, u8, u8)>> = if thorough {
+		vec![Some((0, 2, 2, 1)), Some((1, 3, 3, 2)), Some((0, 1, 1, 1)), Some((1, 4, 2, 3)), None]
+	} else {
+		vec![Some((0, 2, 2, 1)), Some((1, 3, 3, 2)), None]
+	};
+	for (name, n_trunk, compact, style) in scenarios {
+		let mut kit = Kit::new(&format!("{}/asm_src_{}", work, name));
+		let trunk = build_trunk(&mut kit, rng, &mut st, n_trunk, style, None);
+		let src = kit.builder();
+		if compact {
+			if let Err(e) = src.compact() {
+				out.raw(&format!("#ORACLE-FAIL C16 assembly harness: source compaction failed: {}", error_class(&e)));
+			}
+		}
+		let archive = src.txhashset_archive_header().unwrap();
+		if archive.height == 0 {
+			out.raw("#ORACLE-FAIL C16 assembly harness: no archive header above genesis");
+			continue;
+		}
+		let n_out = pmmr::n_leaves(archive.output_mmr_size);
+		let n_ker = pmmr::n_leaves(archive.kernel_mmr_size);
+		let n_chunks = (n_out + 1023) / 1024;
+		st.add(&format!("{}:output-leaves", name), n_out);
+		st.add(&format!("{}:kernel-leaves", name), n_ker);
+		st.add(&format!("{}:bitmap-chunks", name), n_chunks);
+		// reference: a node that processed every block up to the archive header
+		let twin = Subject::new(&format!("{}/asm_twin_{}", work, name), &kit.genesis);
+		for i in &trunk[1..] {
+			if kit.blks[*i].height <= archive.height {
+				twin.deliver_block(&kit.blks[*i].block);
+			}
+		}
+		let mut unspent_idx: BTreeSet<u64> = BTreeSet::new();
+		for o in &kit.outs {
+			if let Ok(Some((_, cp))) = twin.c().get_unspent(o.commit) {
+				unspent_idx.insert(pmmr::n_leaves(cp.pos) - 1);
+			}
+		}
+		let reference = Reference {
+			obs: twin.utxo(&kit),
+			roots: twin.roots(),
+			valid: twin.c().validate(false).is_ok(),
+			unspent_idx,
+		};
+		let archive_out_size = archive.output_mmr_size;
+		let req_out = |pos0: u64| -> bool {
+			let i = pmmr::n_leaves(pos0 + 1) - 1;
+			reference.unspent_idx.contains(&i) || reference.unspent_idx.contains(&(i ^ 1)) || pos0 + 1 == archive_out_size
+		};
+		let headers: Vec<_> = trunk[1..].iter().map(|i| kit.blks[*i].block.header.clone()).collect();
+		let segmenter = src.segmenter().unwrap();
+		let mut rcv_no = 0;
+		for hs in &height_sets {
+			let (hb, ho, hr, hk) = hs.unwrap_or((9, 11, 11, 11));
+			let heights = [hb, ho, hr, hk];
+			let leaves = [n_chunks, n_out, n_out, n_ker];
+			let totals: Vec<u64> = (0..4).map(|i| (leaves[i] + (1u64 << heights[i]) - 1) >> heights[i]).collect();
+			let total_segments: u64 = totals.iter().sum();
+			let patterns: Vec<Pattern> = if hs.is_none() {
+				vec![Pattern::Shuffled, Pattern::LateDup]
+			} else if thorough {
+				PATTERNS.to_vec()
+			} else if (hb, ho) == (0, 2) {
+				PATTERNS.to_vec()
+			} else {
+				vec![Pattern::Shuffled, Pattern::LateDup, Pattern::Withhold, Pattern::UnsolicitedBenign, Pattern::UnsolicitedForeign]
+			};
+			for pat in patterns {
+				rcv_no += 1;
+				let tag = format!("{} heights={:?} pattern={:?}", name, heights, pat);
+				st.inc(&format!("pattern:{:?}", pat));
+				st.inc(&format!("heights:{}", hs.map(|h| format!("{:?}", h)).unwrap_or("default".to_string())));
+				for i in 0..4 {
+					st.inc(&format!("segments-per-tree[{}]:{}", TREE[i], match totals[i] { 1 => "1", 2..=4 => "2-4", 5..=16 => "5-16", 17..=64 => "17-64", _ => ">64" }));
+				}
+				let dest = Subject::new(&format!("{}/asm_dst_{}_{}", work, name, rcv_no), &kit.genesis);
+				let r = dest.sync_headers(&headers);
+				if r != "ok" {
+					out.raw(&format!("#ORACLE-FAIL C16 assembly harness: header sync failed: {}", r));
+					continue;
+				}
+				let ah = dest.c().txhashset_archive_header_header_only().unwrap();
+				if ah.hash() != archive.hash() {
+					out.raw("#ORACLE-FAIL C16 assembly harness: archive headers differ");
+					continue;
+				}
+				set_segment_heights(*hs);
+				let deseg = dest.c().desegmenter(&ah).unwrap();
+				set_segment_heights(None);
+				// the model follows every pattern in which only segments of the asked heights arrive
+				let modelled = true;
+				let mut foreign_accepted: Vec<String> = vec![];
+				if modelled {
+					out.raw("seg new");
+					out.line(
+						&format!("seg dsg new {} {} {} {} {} {} {}", hb, ho, hr, hk, n_chunks, n_out, n_ker),
+						"ok",
+					);
+				}
+				let bound = 30 + 3 * total_segments;
+				let mut rounds = 0u64;
+				let mut complete = false;
+				let mut poisoned = false;
+				// honest deliveries so far, per tree
+				let mut delivered: [BTreeSet<u64>; 4] = Default::default();
+				// (tree, id, due round) of withheld segments
+				let mut withheld: Vec<(u8, SegmentIdentifier, u64)> = vec![];
+				let mut late_dups_done = 0u64;
+				let mut log: Vec<String> = vec![];
+				let mut gave_up = false;
+				let mut empty_rounds = 0u32;
+				let mut last_sizes = (0u64, 0u64, 0u64);
+				while !complete && rounds < bound {
+					rounds += 1;
+					let mut guard = deseg.write();
+					let d = guard.as_mut().unwrap();
+					// --- apply_next_segments, check_progress (as continue_pibd does)
+					match catch(AssertUnwindSafe(|| d.apply_next_segments())) {
+						Ok(Ok(())) => {}
+						Ok(Err(e)) => {
+							st.inc(&format!("apply-err:{}", error_class(&e)));
+							log.push(format!("r{}:apply-err:{}", rounds, error_class(&e)));
+						}
+						Err(m) => {
+							let ftag = if !foreign_accepted.is_empty() { " [desegmenter-foreign-height-segment-applied]" } else { "" };
+							st.inc(&format!("apply-panic:{:?}", pat));
+							out.raw(&format!(
+								"#ORACLE-FAIL C16 assembly{} {}: apply_next_segments panicked in round {}: {}; valid segments of another height accepted before: {:?}; replay: seed={} deliveries=[{}]",
+								ftag, tag, rounds, m, foreign_accepted, seed_from_env(), &log.join(" ")[..log.join(" ").len().min(2500)]
+							));
+							gave_up = true;
+							break;
+						}
+					}
+					complete = matches!(d.check_progress(Arc::new(SyncState::new())), Ok(true));
+					let (so, sr, sk) = {
+						let ts = dest.c().txhashset();
+						let ts = ts.read();
+						(ts.output_mmr_size(), ts.rangeproof_mmr_size(), ts.kernel_mmr_size())
+					};
+					if modelled {
+						out.line("seg dsg apply", &format!("{} {} {} {}", so, sr, sk, if complete { 1 } else { 0 }));
+					}
+					if complete {
+						break;
+					}
+					// --- next_desired_segments
+					let wanted: Vec<(u8, SegmentIdentifier)> =
+						d.next_desired_segments(15).iter().map(|x| (tree_no(&x.segment_type), x.identifier)).collect();
+					st.add("requested", wanted.len() as u64);
+					if modelled {
+						let toks: Vec<String> = wanted.iter().map(|(t, id)| format!("{}:{}:{}", t, id.height, id.idx)).collect();
+						out.line("seg dsg want", &format!("[{}]", toks.join(",")));
+					}
+					for (t, id) in &wanted {
+						if id.height != heights[*t as usize] {
+							out.raw(&format!("#ORACLE-FAIL C16 assembly {}: desegmenter asks for height {} of the {} tree", tag, id.height, TREE[*t as usize]));
+						}
+					}
+					// --- the deliveries of this round: (tree, id, tampered copy?)
+					let mut plan: Vec<(u8, SegmentIdentifier, bool)> = vec![];
+					let mut due: Vec<(u8, SegmentIdentifier)> = vec![];
+					withheld.retain(|(t, id, r)| {
+						if *r <= rounds {
+							due.push((*t, *id));
+							false
+						} else {
+							true
+						}
+					});
+					let mut base: Vec<(u8, SegmentIdentifier)> = wanted.clone();
+					// (one empty list is normal: the round between the last bitmap segment being applied and
+					// the bitmap being finalised by the next apply_next_segments call)
+					// (nor is an empty list while cached segments are still being applied: sizes move)
+					if wanted.is_empty() && withheld.is_empty() && (so, sr, sk) == last_sizes {
+						empty_rounds += 1;
+					} else {
+						empty_rounds = 0;
+					}
+					last_sizes = (so, sr, sk);
+					if empty_rounds >= 3 {
+						// nothing asked for, nothing on its way, yet not complete: a stall. (Regression probe
+						// for the repair d6b49984d: before it the bitmap branch of next_desired_segments
+						// never asked for a segment that adds exactly one position, e.g. the only segment of
+						// a one-chunk bitmap MMR.)
+						let missing: Vec<String> = (0..4)
+							.map(|t| format!("{}:{}/{}", TREE[t], delivered[t].len(), totals[t]))
+							.collect();
+						st.inc(&format!("STALL-empty-request-list:{:?}", pat));
+						out.raw(&format!(
+							"#ORACLE-FAIL C16 assembly STALL [desegmenter-bitmap-segment-never-requested] {}: next_desired_segments has returned an EMPTY list for 3 rounds in which no MMR grew (now round {}) although the sync is not complete (bitmap MMR of {} chunks, {} outputs at the archive header); local sizes output={} rangeproof={} kernel={} archive output={} kernel={}; honestly delivered {:?}; replay: seed={} deliveries=[{}]",
+							tag, rounds, n_chunks, n_out, so, sr, sk, ah.output_mmr_size, ah.kernel_mmr_size, missing, seed_from_env(),
+							&log.join(" ")[..log.join(" ").len().min(2500)]
+						));
+						gave_up = true;
+						break;
+					}
+					if pat == Pattern::Withhold {
+						// the first segment asked of each tree is held back for two rounds (unless it is
+						// already on its way), everything else arrives
+						let mut seen = [false; 4];
+						base.retain(|(t, id)| {
+							if withheld.iter().any(|(t2, id2, _)| t2 == t && id2 == id) {
+								return false;
+							}
+							if !seen[*t as usize] {
+								seen[*t as usize] = true;
+								if rng.chance(2, 3) {
+									withheld.push((*t, *id, rounds + 2));
+									return false;
+								}
+							}
+							true
+						});
+					}
+					base.extend(due);
+					match pat {
+						Pattern::InOrder | Pattern::Withhold => {}
+						Pattern::Reverse => base.reverse(),
+						_ => shuffle_v(rng, &mut base),
+					}
+					for (t, id) in &base {
+						match pat {
+							Pattern::DupCached => {
+								plan.push((*t, *id, false));
+								plan.push((*t, *id, false));
+							}
+							Pattern::Tampered => {
+								if rng.chance(1, 2) {
+									plan.push((*t, *id, true));
+								}
+								plan.push((*t, *id, false));
+								if rng.chance(1, 2) {
+									plan.push((*t, *id, true));
+								}
+							}
+							_ => plan.push((*t, *id, false)),
+						}
+					}
+					if pat == Pattern::LateDup {
+						// segments that were applied in earlier rounds, delivered once more: for every
+						// tree idx 0, a middle one and the last applied one
+						let sizes = [0, so, sr, sk];
+						for t in 0..4u8 {
+							let h = heights[t as usize];
+							let applied: u64 = if t == 0 {
+								// the bitmap accumulator is private: applied = delivered and no longer asked for
+								delivered[0].iter().filter(|i| !wanted.iter().any(|(t2, id)| *t2 == 0 && id.idx == **i)).count() as u64
+							} else {
+								pmmr::n_leaves(sizes[t as usize]) >> h
+							};
+							if applied == 0 {
+								continue;
+							}
+							let mut idxs = vec![0, applied / 2, applied - 1];
+							idxs.dedup();
+							for i in idxs {
+								if delivered[t as usize].contains(&i) && rng.chance(2, 3) {
+									plan.push((t, SegmentIdentifier { height: h, idx: i }, false));
+									late_dups_done += 1;
+									st.inc(&format!("late-duplicate[{}]", TREE[t as usize]));
+								}
+							}
+						}
+						shuffle_v(rng, &mut plan);
+					}
+					if pat == Pattern::UnsolicitedBenign || pat == Pattern::UnsolicitedForeign {
+						let sizes = [0, so, sr, sk];
+						for _ in 0..rng.range(1, 4) {
+							let t = rng.below(4) as u8;
+							let h = heights[t as usize];
+							// next required idx of the asked height (bitmap: private, taken from the request list)
+							let next_idx = if t == 0 {
+								wanted.iter().filter(|(t2, _)| *t2 == 0).map(|(_, id)| id.idx).min().unwrap_or(u64::MAX)
+							} else {
+								pmmr::n_leaves(sizes[t as usize]) >> h
+							};
+							if pat == Pattern::UnsolicitedBenign {
+								if rng.chance(1, 2) {
+									// the asked height, far ahead of what was requested (an early arrival)
+									if next_idx != u64::MAX {
+										let idx = next_idx + 5 + rng.below(6);
+										if idx < totals[t as usize] {
+											plan.push((t, SegmentIdentifier { height: h, idx }, false));
+										}
+									}
+								} else if next_idx != u64::MAX && next_idx > 0 {
+									// higher height, idx strictly behind the next required one: cached, never selected
+									let oh = h + 1 + rng.below(2) as u8;
+									let cnt = (leaves[t as usize] + (1u64 << oh) - 1) >> oh;
+									let idx = rng.below(next_idx.min(cnt));
+									plan.push((t, SegmentIdentifier { height: oh, idx }, false));
+								}
+							} else if h > 0 && rng.chance(1, 2) {
+								// lower height, any idx: selected by idx in place of the required segment, the rest
+								// of the batch is then applied with a gap
+								let oh = h - 1;
+								let cnt = (leaves[t as usize] + (1u64 << oh) - 1) >> oh;
+								plan.push((t, SegmentIdentifier { height: oh, idx: rng.below(cnt) }, false));
+							} else {
+								// higher height (also the shipped default), idx at or ahead of the next required one
+								let oh = match rng.below(3) {
+									0 => h + 1,
+									1 => h + 2,
+									_ => [9u8, 11, 11, 11][t as usize].max(h + 1),
+								};
+								let cnt = (leaves[t as usize] + (1u64 << oh.min(20)) - 1) >> oh.min(20);
+								if next_idx != u64::MAX && next_idx + 1 < cnt {
+									let idx = next_idx + 1 + rng.below((cnt - next_idx - 1).min(3));
+									plan.push((t, SegmentIdentifier { height: oh, idx }, false));
+								}
+							}
+						}
+						shuffle_v(rng, &mut plan);
+					}
+					for (t, id, tamper_it) in plan {
+						let r = catch(AssertUnwindSafe(|| deliver(d, &segmenter, t, id, tamper_it, rng, &req_out)));
+						let (acc, tampered, redundant_only, err_cls) = match r {
+							Err(m) => {
+								out.raw(&format!("#ORACLE-FAIL C16 assembly {}: add_{}_segment panicked on ({},{}): {}", tag, TREE[t as usize], id.height, id.idx, m));
+								continue;
+							}
+							Ok(None) => {
+								st.inc(&format!("source-cannot-serve[{}]", TREE[t as usize]));
+								continue;
+							}
+							Ok(Some(x)) => x,
+						};
+						let own = id.height == heights[t as usize];
+						st.inc(&format!(
+							"add-{}:{}:{}",
+							TREE[t as usize],
+							if tampered && redundant_only { "tampered-redundant-leaf" } else if tampered { "tampered" } else if own { "honest" } else { "honest-other-height" },
+							if acc { "accepted" } else { "rejected" }
+						));
+						log.push(format!("r{}:{}{}:{}:{}:{}", rounds, if tampered { "T" } else { "" }, t, id.height, id.idx, if acc { "a" } else { "r" }));
+						if modelled {
+							out.line(
+								&format!("seg dsg add {} {} {} {}", t, id.height, id.idx, if acc { 1 } else { 0 }),
+								if acc { "cached" } else { "refused" },
+							);
+						}
+						if !own {
+							// regression probe for the repair 11f03601e: a segment of a height the desegmenter
+							// did not ask for must be refused with InvalidSegmentHeight and change nothing
+							if acc {
+								foreign_accepted.push(format!("r{}:{}({},{})", rounds, TREE[t as usize], id.height, id.idx));
+								out.raw(&format!(
+									"#ORACLE-FAIL C16 assembly [desegmenter-foreign-height-segment-applied] {}: add_{}_segment accepted the valid segment ({},{}) although the desegmenter asks for height {} (round {})",
+									tag, TREE[t as usize], id.height, id.idx, heights[t as usize], rounds
+								));
+							} else {
+								st.inc(&format!("foreign-height-refused:{}", err_cls));
+								if !err_cls.contains("InvalidSegmentHeight") {
+									out.raw(&format!(
+										"#ORACLE-FAIL C16 assembly [desegmenter-foreign-height-segment-applied] {}: add_{}_segment refused the segment ({},{}) of another height with {} instead of InvalidSegmentHeight",
+										tag, TREE[t as usize], id.height, id.idx, err_cls
+									));
+								}
+							}
+						}
+						if tampered && redundant_only && acc {
+							poisoned = true;
+						}
+						if tampered && !redundant_only && acc {
+							out.raw(&format!("#ORACLE-FAIL C16 assembly {}: tampered {} segment accepted by the desegmenter (id {},{})", tag, TREE[t as usize], id.height, id.idx));
+						}
+						if !tampered && own {
+							if acc {
+								delivered[t as usize].insert(id.idx);
+							} else if t == 0 || d.next_desired_segments(15).iter().any(|x| tree_no(&x.segment_type) != 0) || t == 3 {
+								// an honest segment of the asked height must be accepted (output / rangeproof
+								// segments need the finished bitmap: refused before that)
+								out.raw(&format!("#ORACLE-FAIL C16 assembly {}: honest {} segment ({},{}) refused", tag, TREE[t as usize], id.height, id.idx));
+							}
+						}
+					}
+				}
+				st.add("rounds", rounds);
+				st.add("late-duplicates-delivered", late_dups_done);
+				let replay = format!("{} seed={} deliveries=[{}]", tag, seed_from_env(), log.join(" "));
+				if gave_up {
+					continue;
+				}
+				let ftag = if !foreign_accepted.is_empty() { " [desegmenter-foreign-height-segment-applied]" } else { "" };
+				if !complete {
+					let (o, r, k) = {
+						let ts = dest.c().txhashset();
+						let ts = ts.read();
+						(ts.output_mmr_size(), ts.rangeproof_mmr_size(), ts.kernel_mmr_size())
+					};
+					let want: Vec<String> = match deseg.write().as_mut() {
+						Some(d) => d.next_desired_segments(15).iter().map(|x| format!("{}:{}:{}", tree_no(&x.segment_type), x.identifier.height, x.identifier.idx)).collect(),
+						None => vec![],
+					};
+					let all_delivered: Vec<String> = (0..4).map(|t| format!("{}:{}/{}", TREE[t], delivered[t].len(), totals[t])).collect();
+					st.inc(&format!("STALL:{:?}", pat));
+					out.raw(&format!(
+						"#ORACLE-FAIL C16 assembly STALL{} {}: not complete after {} rounds (bound {}); local sizes output={} rangeproof={} kernel={} archive output={} kernel={}; honestly delivered {:?}; still asked for={:?}; replay: {}",
+						ftag, tag, rounds, bound, o, r, k, ah.output_mmr_size, ah.kernel_mmr_size, all_delivered, want,
+						&replay[..replay.len().min(3000)]
+					));
+					continue;
+				}
+				st.inc(&format!("complete:{:?}", pat));
+				// finalise, as `StateSync` does
+				if let Some(d) = deseg.read().as_ref() {
+					if let Err(e) = d.check_update_leaf_set_state() {
+						out.raw(&format!("#ORACLE-FAIL C16 assembly {}: check_update_leaf_set_state failed: {}", tag, error_class(&e)));
+					}
+				}
+				let fin = {
+					let guard = deseg.read();
+					let d = guard.as_ref().unwrap();
+					catch(AssertUnwindSafe(|| d.validate_complete_state(Arc::new(SyncState::new()), Arc::new(StopState::new()))))
+				};
+				let fin_s = match &fin {
+					Ok(Ok(())) => "ok".to_string(),
+					Ok(Err(e)) => format!("err:{}", error_class(e)),
+					Err(m) => format!("panic:{}", m),
+				};
+				st.inc(&format!("validate_complete_state:{}", fin_s));
+				let roots_match = match dest.c().txhashset().read().roots() {
+					Ok(r) => r.validate(&ah).is_ok(),
+					Err(_) => false,
+				};
+				if fin_s == "ok" && !roots_match {
+					out.raw(&format!("#ORACLE-FAIL C16 assembly {}: state finalised with roots other than the archive header's; replay: {}", tag, &replay[..replay.len().min(3000)]));
+				}
+				if poisoned && fin_s != "ok" {
+					st.inc("poisoned-receiver:refused-at-final-roots-check");
+					continue;
+				}
+				if fin_s != "ok" {
+					out.raw(&format!(
+						"#ORACLE-FAIL C16 assembly{} {}: every desired segment was delivered honestly but the state was not finalised: {} (roots match archive header: {}); replay: {}",
+						ftag, tag, fin_s, roots_match, &replay[..replay.len().min(3000)]
+					));
+					continue;
+				}
+				let head = dest.c().head().unwrap();
+				if head.last_block_h != ah.hash() {
+					out.raw(&format!("#ORACLE-FAIL C16 assembly {}: body head after state sync is not the archive header", tag));
+				}
+				let obs = dest.utxo(&kit);
+				let droots = dest.roots();
+				let dvalid = dest.c().validate(false).is_ok();
+				if obs != reference.obs {
+					out.raw(&format!("#ORACLE-FAIL C16 assembly {}: unspent set after state sync differs from block-by-block; replay: {}", tag, &replay[..replay.len().min(3000)]));
+				}
+				if droots != reference.roots {
+					out.raw(&format!("#ORACLE-FAIL C16 assembly {}: roots after state sync differ from block-by-block: {} vs {}", tag, droots, reference.roots));
+				}
+				if dvalid != reference.valid || !dvalid {
+					out.raw(&format!("#ORACLE-FAIL C16 assembly {}: full validation after state sync {} vs block-by-block {}", tag, dvalid, reference.valid));
+				}
+				st.inc("receivers-finalised-equal-to-block-by-block");
+			}
+		}
+	}
+	st.dump(out, "assembly");
+}
+
+fn shuffle_v<T>(rng: &mut Rng, v: &mut Vec<T>) {
+	for i in (1..v.len()).rev() {
+		let j = rng.below(i as u64 + 1) as usize;
+		v.swap(i, j);
+	}
+}
+
 fn main() {
 	if std::env::var("VERIF_DEBUG").is_err() {
 		quiet_panics();
@@ -2094,11 +2848,17 @@ fn main() {
 	if mode == "e2e" {
 		e2e_mode(&mut out, &mut rng, thorough);
 	}
+	if mode == "assembly" {
+		assembly_mode(&mut out, &mut rng, thorough);
+	}
 	if mode == "ident" || mode == "all" {
 		ident_mode(&mut out, &mut rng, thorough);
 	}
 	if mode == "leafless" || mode == "all" {
 		leafless_mode(&mut out, &mut rng, thorough);
+	}
+	if mode == "ancestor" || mode == "all" {
+		ancestor_mode(&mut out, &mut rng, thorough);
 	}
 	out.flush();
 }
